@@ -1795,7 +1795,9 @@ struct ExpDriver : DriverBase<ExpDriver<T, E>> {
     using Base::pool;
     using Base::skip;
     using X = etl::expected<T, E>;
-    static constexpr bool tracked = is_tracked_v<T>;
+    static constexpr bool tracked = is_tracked_v<T> || is_tracked_v<E>;
+    // the side that is active in a model state is an instrumented type (its moved-from value carries the marker)
+    static auto side_tracked(bool hasValue) -> bool { return hasValue ? is_tracked_v<T> : is_tracked_v<E>; }
 
     struct XModel {
         bool has  = true;
@@ -1957,7 +1959,7 @@ struct ExpDriver : DriverBase<ExpDriver<T, E>> {
         case 3: model[a] = model[b]; break;
         case 4:
             model[a]  = model[b];
-            unspec[b] = tracked;
+            unspec[b] = side_tracked(model[b].has);
             SIM_COUNT("F7.moved_from_created");
             break;
         default: model[a] = XModel{true, 0}; break;
@@ -2009,7 +2011,7 @@ struct ExpDriver : DriverBase<ExpDriver<T, E>> {
             });
             if (ok && a == b && op == "move_assign") {
                 // F6: self-move-assignment: the side (value / error) cannot change, a class-type content is unspecified
-                unspec[a] = tracked;
+                unspec[a] = side_tracked(model[a].has);
                 ++ctx.boundaryEvents;
                 return;
             }
@@ -2019,7 +2021,7 @@ struct ExpDriver : DriverBase<ExpDriver<T, E>> {
                 }
                 unspec[a] = false;
                 if (op == "move_assign") {
-                    unspec[b] = tracked;
+                    unspec[b] = side_tracked(model[b].has);
                     SIM_COUNT("F7.moved_from_created");
                 }
                 changed(was, m.has);
@@ -2378,6 +2380,7 @@ void register_ovx_0()
     add<OptDriver<sim::Tracked>>("optional<Tracked>", true);
     add<OptDriver<sim::TrackedMoveOnly>>("optional<TrackedMoveOnly>", true);
     add<OptDriver<sim::TrackedDA>>("optional<TrackedDA>", true);
+    add<OptDriver<sim::TrackedOA>>("optional<TrackedOA>", true); // alignas(32) value
     add<OptRefDriver<int>>("optional<int&>", false);
     add<OptRefDriver<Cell>>("optional<Cell&>", false);
 }
@@ -2398,6 +2401,7 @@ void register_ovx_1()
     add<VarDriver<int, sim::Tracked, int>>("variant<int,Tracked,int>", true);
     add<VarDriver<int, float>>("variant<int,float>", false);
     add<VarDriver<int, sim::TrackedDA>>("variant<int,TrackedDA>", true);
+    add<VarDriver<char, sim::TrackedOA>>("variant<char,TrackedOA>", true); // smallest and over-aligned alternative
 }
 #elif SIM_PART == 2
 void register_ovx_2()
@@ -2406,6 +2410,7 @@ void register_ovx_2()
     add<ExpDriver<sim::Tracked, sim::TrackedB>>("expected<Tracked,TrackedB>", true);
     add<ExpDriver<sim::Tracked, sim::Tracked>>("expected<Tracked,Tracked>", true);
     add<ExpDriver<sim::TrackedDA, int>>("expected<TrackedDA,int>", true);
+    add<ExpDriver<int, sim::TrackedOA>>("expected<int,TrackedOA>", true); // over-aligned error type
     {
         Scenario sc;
         sc.family   = "ovx";
